@@ -47,6 +47,8 @@ def _rand_list(rng, cls_path, n=None, gappy=True):
                 r[c] = rng.randrange(0, 4)
             elif c == "bpm":
                 r[c] = float(rng.choice([60, 120, 180]))
+            elif c == "multiplier":
+                r[c] = float(rng.choice([1, 0.5, 2.25, 4, 0.0, -1.5, 25.0, 0.001]))
             elif dt == "float":
                 r[c] = float(rng.choice([1, 2, 4]))
             elif dt == "int":
